@@ -43,6 +43,17 @@ func isInSchemaRegistry(typ reflect.Type) (Schema, bool) {
 }
 
 func schemaForType(typ reflect.Type) (Schema, error) {
+	b := schemaBuilder{visiting: make(map[reflect.Type]struct{})}
+	return b.schemaForType(typ)
+}
+
+// schemaBuilder remembers the struct types it is in the middle of expanding,
+// so a type that refers to itself is reported rather than expanded forever.
+type schemaBuilder struct {
+	visiting map[reflect.Type]struct{}
+}
+
+func (b *schemaBuilder) schemaForType(typ reflect.Type) (Schema, error) {
 	if s, ok := isInSchemaRegistry(typ); ok {
 		return s, nil
 	}
@@ -59,14 +70,14 @@ func schemaForType(typ reflect.Type) (Schema, error) {
 	case reflect.String:
 		return Schema{Type: "string"}, nil
 	case reflect.Struct:
-		return schemaForStruct(typ)
+		return b.schemaForStruct(typ)
 	case reflect.Array, reflect.Slice:
-		return schemaForArray(typ)
+		return b.schemaForArray(typ)
 	case reflect.Map:
-		return schemaForMap(typ)
+		return b.schemaForMap(typ)
 	case reflect.Pointer:
 		// If this is a pointer to a basic type then we don't need to wrap in a union as all the basic types are nullable.
-		underlying, err := schemaForType(typ.Elem())
+		underlying, err := b.schemaForType(typ.Elem())
 		if err != nil {
 			return Schema{}, fmt.Errorf("getting underlying schema for pointer: %w", err)
 		}
@@ -89,7 +100,13 @@ func nullableSchema(s Schema) Schema {
 	}
 }
 
-func schemaForStruct(typ reflect.Type) (Schema, error) {
+func (b *schemaBuilder) schemaForStruct(typ reflect.Type) (Schema, error) {
+	if _, ok := b.visiting[typ]; ok {
+		return Schema{}, fmt.Errorf("type %s refers to itself, which is not supported", typ)
+	}
+	b.visiting[typ] = struct{}{}
+	defer delete(b.visiting, typ)
+
 	fields := make([]SchemaRecordField, 0, typ.NumField())
 	for i := 0; i < typ.NumField(); i++ {
 		field := typ.Field(i)
@@ -98,7 +115,7 @@ func schemaForStruct(typ reflect.Type) (Schema, error) {
 			continue
 		}
 
-		s, err := schemaForType(field.Type)
+		s, err := b.schemaForType(field.Type)
 		if err != nil {
 			return Schema{}, fmt.Errorf("getting schema for field %s: %w", name, err)
 		}
@@ -127,7 +144,7 @@ func schemaForStruct(typ reflect.Type) (Schema, error) {
 
 var namespaceReplacer = strings.NewReplacer("/", ".", "-", "_")
 
-func schemaForArray(typ reflect.Type) (Schema, error) {
+func (b *schemaBuilder) schemaForArray(typ reflect.Type) (Schema, error) {
 	elem := typ.Elem()
 	if elem.Kind() == reflect.Uint8 {
 		return Schema{
@@ -135,7 +152,7 @@ func schemaForArray(typ reflect.Type) (Schema, error) {
 		}, nil
 	}
 
-	s, err := schemaForType(elem)
+	s, err := b.schemaForType(elem)
 	if err != nil {
 		return Schema{}, fmt.Errorf("building array schema: %w", err)
 	}
@@ -148,8 +165,8 @@ func schemaForArray(typ reflect.Type) (Schema, error) {
 	}, nil
 }
 
-func schemaForMap(typ reflect.Type) (Schema, error) {
-	s, err := schemaForType(typ.Elem())
+func (b *schemaBuilder) schemaForMap(typ reflect.Type) (Schema, error) {
+	s, err := b.schemaForType(typ.Elem())
 	if err != nil {
 		return Schema{}, err
 	}
